@@ -39,6 +39,14 @@ Definition bn_running (momentum : Q) (rm rv : Q) (l : list Q) : Q * Q :=
   let n := qlen l in
   (bn_mean l * momentum + rm * (1 - momentum), bn_var l * (n / (n - 1)) * momentum + rv * (1 - momentum)).
 
+(* nn.BatchNorm.forward bookkeeping (track_running_stats=True): num_batches_tracked is incremented by training-mode forwards only;
+   exponential_average_factor = momentum, or 1 / num_batches_tracked (after the increment) when momentum is None;
+   eval-mode forwards leave the running statistics alone *)
+Definition bn_tracked (training : bool) (n : Z) : Z := if training then (n + 1)%Z else n.
+Definition bn_factor (momentum : option Q) (n_after : Z) : Q := match momentum with Some m => m | None => 1 / inject_Z n_after end.
+Definition bn_layer_mean (momentum : option Q) (training : bool) (n_before : Z) (rm rv : Q) (l : list Q) : Q :=
+  if training then fst (bn_running (bn_factor momentum (bn_tracked training n_before)) rm rv l) else rm.
+
 Fixpoint qlist_eqb (a b : list Q) : bool :=
   match a, b with [] , [] => true | x :: a', y :: b' => Qeq_bool x y && qlist_eqb a' b' | _, _ => false end.
 Fixpoint qll_eqb (a b : list (list Q)) : bool :=
